@@ -28,6 +28,7 @@ type solver struct {
 	name  string
 	cmd   *exec.Cmd
 	in    io.WriteCloser
+	w     *bufio.Writer
 	out   *bufio.Reader
 	stats solverStats
 	log   io.Writer
@@ -64,7 +65,7 @@ func newSolver(name string, timeoutMs int) (*solver, error) {
 	if err := cmd.Start(); err != nil {
 		return nil, err
 	}
-	s := &solver{name: name, cmd: cmd, in: in, out: bufio.NewReaderSize(out, 1<<16), defined: map[int]bool{}, timeoutMs: timeoutMs}
+	s := &solver{name: name, cmd: cmd, in: in, w: bufio.NewWriterSize(in, 1<<16), out: bufio.NewReaderSize(out, 1<<16), defined: map[int]bool{}, timeoutMs: timeoutMs}
 	if p := os.Getenv("GOSX_SMTLOG"); p != "" {
 		f, _ := os.Create(fmt.Sprintf("%s.%d", p, cmd.Process.Pid))
 		s.log = f
@@ -77,6 +78,7 @@ func newSolver(name string, timeoutMs int) (*solver, error) {
 }
 
 func (s *solver) close() {
+	s.w.Flush()
 	s.in.Close()
 	done := make(chan struct{})
 	go func() { s.cmd.Wait(); close(done) }()
@@ -91,12 +93,13 @@ func (s *solver) send(cmd string) {
 	if s.log != nil {
 		io.WriteString(s.log, cmd+"\n")
 	}
-	io.WriteString(s.in, cmd)
-	io.WriteString(s.in, "\n")
+	s.w.WriteString(cmd)
+	s.w.WriteByte('\n')
 }
 
 // readSexp reads one balanced s-expression or atom line from the solver.
 func (s *solver) readSexp() (string, error) {
+	s.w.Flush()
 	var sb strings.Builder
 	depth := 0
 	started := false
@@ -190,7 +193,7 @@ func (s *solver) define(t *Term) string {
 			continue
 		}
 		s.defined[x.id] = true
-		s.send(fmt.Sprintf("(define-fun t%d () %s %s)", x.id, x.sort, x.exprString(func(a *Term) string {
+		ref := func(a *Term) string {
 			switch a.op {
 			case oConst:
 				return constString(a)
@@ -198,7 +201,11 @@ func (s *solver) define(t *Term) string {
 				return a.name
 			}
 			return "t" + strconv.Itoa(a.id)
-		})))
+		}
+		// z3 expands define-fun as a macro at every use (exponential on DAGs),
+		// so shared sub-terms are introduced as constants with a defining equation.
+		s.send(fmt.Sprintf("(declare-fun t%d () %s)", x.id, x.sort))
+		s.send(fmt.Sprintf("(assert (= t%d %s))", x.id, x.exprString(ref)))
 	}
 	return name
 }
@@ -281,8 +288,7 @@ func (s *solver) getValues(vars []*Term) map[string]uint64 {
 		sb.WriteString("(get-value (")
 		for _, v := range vars[i:j] {
 			if !s.defined[v.id] {
-				s.defined[v.id] = true
-				// declared after the check: value is unconstrained; skip
+				// not yet declared to the solver: unconstrained; skip
 				continue
 			}
 			sb.WriteString(v.name)
